@@ -1905,6 +1905,73 @@ def discoverer_family(ctx, rng, tag):
                                   "listings_without_final_line_feed": sum(1 for c in cases if not c[2]), "oracle_disagreements": nor}
 
 
+def suite_building_family(ctx, rng):
+    """Suites built with add_test(), add_tests(several) and add_suite() in every mix and order, sanitizers on: count_tests() and the
+    totals of the run are those of the list of tests added (every fifth test fails a check)."""
+    impl = build_impl(ctx, asan=True)
+    NT, MAXK = 160, 12
+    src = ['#include <cgreen/cgreen.h>', '#include <stdio.h>', '#include <stdlib.h>', '#include <string.h>']
+    for i in range(NT):
+        src.append(f"Ensure(t{i}) {{ assert_that({i} % 5, is_not_equal_to(4)); }}")
+    src.append("static TestSuite *leaf(void) { TestSuite *s = create_named_test_suite(\"leaf\"); add_test(s, t0); return s; }")
+    src.append("int main(int argc, char **argv) {\n  TestSuite *top = create_named_test_suite(\"top\");\n  int next = 0;\n  for (int a = 1; a < argc; a++) {\n    if (!strcmp(argv[a], \"t\")) { switch (next) {")
+    for i in range(NT):
+        src.append(f"      case {i}: add_test(top, t{i}); break;")
+    src.append("      default: return 90; } next++; }\n    else if (!strcmp(argv[a], \"s\")) add_suite(top, leaf());\n    else { int k = atoi(argv[a] + 1); switch (next * 100 + k) {")
+    for base in range(0, NT - MAXK, 1):
+        for k in range(2, MAXK + 1):
+            if (base * 7 + k) % 9 == 0 or base % 16 in (0, 15, 14) or base < 6:      # (enough starting points for every count; a full table would be 1800 cases)
+                # (the function behind add_tests(), with the tests' specifications: the macro itself hands over the test *functions* of
+                # Ensure()-defined tests where specifications are expected - an API left over from before contexts, see DESIGN.md section 7)
+                src.append(f"      case {base * 100 + k}: add_tests_(top, \"{', '.join(f't{base + j}' for j in range(k))}\", {', '.join(f'&spec_name(default, t{base + j})' for j in range(k))}); break;")
+    src.append("      default: return 91; } next += k; }\n  }\n  printf(\"count %d\\n\", count_tests(top));\n  int st = run_test_suite(top, create_text_reporter());\n  destroy_test_suite(top);\n  return st; }")
+    text = "\n".join(src) + "\n"
+    have = set(int(x) for x in re.findall(r"case (\d+): add_tests", text))
+    path = os.path.join(ctx.work, "suite_build.c"); open(path, "w").write(text)
+    exe = compile_harness(ctx, impl, "suite_build", [path], out="suite_build")
+    plans = []
+    for first in range(2, MAXK + 1):      # add_tests first, then single additions and sub-suites; and the other way round
+        plans.append([f"T{first}"] + ["t"] * 3)
+        plans.append([f"T{first}", "s", "t"])
+        plans.append(["t"] * (first % 4) + [f"T{first}", "t", "t"])
+    for _ in range(sizes(ctx, 60, 600)):
+        plans.append([rng.choice(["t", "t", "s", f"T{rng.randrange(2, MAXK + 1)}"]) for _ in range(rng.randrange(1, 14))])
+    ran = bad = 0
+    for plan in plans:
+        nxt, ok, tests, leaves = 0, True, [], 0
+        for op in plan:
+            if op == "t": tests.append(nxt); nxt += 1
+            elif op == "s": leaves += 1
+            else:
+                k = int(op[1:])
+                if nxt * 100 + k not in have: ok = False; break
+                tests += list(range(nxt, nxt + k)); nxt += k
+        if not ok or nxt > NT:
+            continue
+        ran += 1
+        r = subprocess.run([exe] + plan, stdout=subprocess.PIPE, stderr=subprocess.PIPE, env=asan_env(), timeout=120)
+        out, err = r.stdout.decode("latin-1"), r.stderr.decode("latin-1")
+        nfail = sum(1 for i in tests if i % 5 == 4)
+        npass = len(tests) - nfail + leaves
+        want_count = len(tests) + leaves
+        m = re.search(r"count (\d+)", out)
+        tot = parse_counts(out.split("Completed")[-1]) if "Completed" in out else None
+        problem = None
+        if "ERROR: AddressSanitizer" in err or "runtime error" in err or r.returncode < 0:
+            problem = "undefined behaviour in cgreen itself: " + " ".join(l.strip() for l in err.split("\n") if "ERROR" in l or "SUMMARY" in l or "runtime error" in l)[:260]
+        elif not m or int(m.group(1)) != want_count:
+            problem = f"count_tests() says {m.group(1) if m else None}, {want_count} tests were added"
+        elif tot is None or (tot[0], tot[1]) != (npass, nfail) or (r.returncode != 0) != (nfail > 0):
+            problem = f"the run reports {tot} (passes, failures, skipped, exceptions) and exit status {r.returncode}; the tests added make {npass} passes and {nfail} failures"
+        if problem and bad < 3:
+            bad += 1
+            ctx.violation(f"[C20] a suite built by `{' '.join(plan)}` (t = add_test, T<k> = add_tests with k tests, s = add_suite): {problem}",
+                          "# (sanitizer build) <work>/suite_build " + " ".join(plan) + "\n# generated by suite_building_family() in harness/props.py: Ensure(t0..t159), every fifth fails one check\n",
+                          found_input=True, facts={"where": "suite.c", "what": "suite building"})
+    ctx.coverage["suite_building_plans"] = ran
+    ctx.oblige("C20: suites built through add_test / add_tests / add_suite in every mix were run", ran > 30, str(ran))
+
+
 def check_C20(ctx):
     lean_check(ctx)
     rng = random.Random(ctx.seed * 1000 + 20)
@@ -1975,6 +2042,8 @@ def check_C20(ctx):
             ctx.oblige("the model itself reports no out-of-bounds access", False, m[:200])
     ctx.oblige("correspondence C20: vector model and implementation agree on every history (results and sizes)", ndis == 0, f"{ndis} histories disagree")
     nvec = len(blocks)
+    # ---- a suite's array of tests, filled through every public way of adding (add_test, add_tests with several, add_suite) in any mix ----
+    suite_building_family(ctx, rng)
     # ---- the discoverer's line buffer: lines of every length around every size the buffer can have ----
     discoverer_family(ctx, rng, "asan")
     # ---- what cgreen-runner says when it has to give up names the file it could not load: a message of any length ----
@@ -2040,6 +2109,13 @@ def check_C20(ctx):
     # buffer that starts at 4096 bytes; a failure is some 200 bytes)
     for nf in ([1, 15, 19, 20, 21, 22, 25, 45, 300] if ctx.tier == "quick" else [1, 10, 15, 17, 18, 19, 20, 21, 22, 23, 24, 25, 30, 40, 41, 42, 45, 80, 90, 170, 300, 700]):
         scens.append(Scen(S("top", items=[T("a", body=["P"]), T("many", body=["F"] * nf + ["P"]), T("b", body=["F"])]))); labels.append(f"{nf} failing checks in one test")
+    # a failure message that quotes a long name or text (the name of a mocked function, a file name, a compared string): the message
+    # reaches the reporter as a format with that text among its arguments, and as a finished (percent-doubled) format
+    for L in ([40, 98, 100, 998, 1000, 1002, 1500, 4000] if ctx.tier == "quick" else [40, 97, 98, 99, 100, 101, 500, 997, 998, 999, 1000, 1001, 1002, 1023, 1024, 1500, 2047, 2048, 4000, 9000]):
+        txt = ("long_name_" * (L // 10 + 1))[:L]
+        for kind in ("X", "Y"):
+            scens.append(Scen(S("top", items=[T("a", body=["P"]), T("quotes", body=["P", kind + txt.encode().hex(), "P"]), T("b", body=["F"])])))
+            labels.append(f"a failure message of {L} characters given as {'an argument of a format' if kind == 'X' else 'a finished format'}")
     jobs = [(s.text(), r) for s in scens for r in REPORTERS_ALL]
     # deeper than a per-suite file name allows: the XML reporters through their printer hooks, the others as they are
     DEEP_REPS = ["text", "cute", "cdash", "xmlp", "libxmlp"]
@@ -2089,6 +2165,17 @@ def check_C20(ctx):
                     shown.add(("many", rep))
                     ctx.violation(f"[C20] {lab}, {rep} reporter: the report shows {got} failures for that test" + (f" ({perr[0][:120]})" if perr else ""),
                                   f"# reporter: {rep}\n" + s.text()[:3000], found_input=True, facts={"where": rep, "what": "many failures"})
+            elif rep in ("xml", "libxml") and lab.startswith("a failure message of"):
+                # the text arrives as it is at every length (the plain XML reporter may cut it, an unaltered beginning remains)
+                cases, perr = xml_testcases(o)
+                L = int(lab.split()[4])
+                txt = ("long_name_" * (L // 10 + 1))[:L]
+                msgs = [m_ for c in cases if c[1] == "quotes" for m_ in c[5]]
+                okm = len(msgs) == 1 and (txt[:900] in msgs[0])
+                if (perr or not okm) and ("msg", rep) not in shown:
+                    shown.add(("msg", rep))
+                    ctx.violation(f"[C20] {lab}, {rep} reporter: the report's failure element for that check " + (f"cannot be read ({perr[0][:120]})" if perr else f"does not carry the text (nothing derived from it either): {[m_[:60] for m_ in msgs]}"),
+                                  f"# reporter: {rep}\n" + s.text()[:9000], found_input=True, facts={"where": rep, "what": "long message"})
             elif rep in ("text", "cute") and not o.timeout:
                 # results do not change with names / depth / counts
                 e = oracle_C03(s, m, o, rep)
@@ -3316,7 +3403,7 @@ def check_C11(ctx):
 
 
 # ---- C19: resource failures -------------------------------------------------------------------------
-FAULT_CALLS = ["fork", "pipe", "fcntl", "tmpfile", "write", "read", "msend", "mrecv"]
+FAULT_CALLS = ["fork", "pipe", "fcntl", "tmpfile", "write", "read", "msend", "mrecv", "mlib"]
 
 
 def legs_of(scen):
@@ -3391,6 +3478,7 @@ def check_C19(ctx):
         ("with a crashing test", S("top", items=[T("a", body=["P"]), T("b", body=["F", "K11"]), T("c", body=["F"])]), "c"),
         ("the failing test ignores SIGPIPE (as network code does)", S("top", items=[T("a", body=["P"]), T("b", body=["IP", "P", "F", "P"]), T("c", body=["P"])]), "b"),
         ("more results than the channel holds", S("top", items=[T("big", body=["P"] * 4200 + ["F"]), T("after", body=["F"])]), "after"),
+        ("a test that ends its process itself after a failed check (exit(0) in code under test)", S("top", items=[T("a", body=["P"]), T("b", body=["F", "E"]), T("c", body=["P"])]), "b"),
     ]
     configs = []
     for lab, root, single in trees:
